@@ -14,6 +14,9 @@
 //   kf (bool): the targeted scenario "restart while a VM with a live process does not answer and
 //   StaleLockTimeout expires first" (DESIGN.md section 6 C14, expected known finding),
 //   calm (bool): no faults at all (C15: calibration of the fault-free completion time)
+//   listlimitms / createlimitms: rate limits of the cloud's list / create calls (calls in between fail)
+//   reportbroken k, reportbrokenms: the first k VMs report "broken" in their probe answers from that
+//   age on (event "broken" when such an answer is first given); onetype: one instance type for all
 //   breakfirst k: the first k VMs stop answering shortly after creation while their (long-running)
 //   containers are Running: the instances are shut down and the containers must be cancelled
 //   holdallms: for this long the operator puts every instance on hold as soon as the pool lists it
@@ -33,6 +36,7 @@
 package dispatchcloud
 
 import (
+	"bytes"
 	"context"
 	"encoding/json"
 	"fmt"
@@ -78,7 +82,12 @@ type vE2EScenario struct {
 	Calm           bool    `json:"calm"`
 	DeadlineFactor int     `json:"deadlinefactor"`
 	ExecMs         int     `json:"execms"`
-	HoldAllMs      int     `json:"holdallms"`  // the operator holds every instance it sees, for this long
+	HoldAllMs      int     `json:"holdallms"`     // the operator holds every instance it sees, for this long
+	ListLimitMs    int     `json:"listlimitms"`   // StubDriver.MinTimeBetweenInstancesCalls: list calls in between fail (rate limit)
+	CreateLimitMs  int     `json:"createlimitms"` // StubDriver.MinTimeBetweenCreateCalls (default 1 ms)
+	ReportBroken   int     `json:"reportbroken"`  // the first k VMs start reporting "broken" reportbrokenms after creation
+	ReportBrokenMs int     `json:"reportbrokenms"`
+	OneType        bool    `json:"onetype"`    // every container fits every instance
 	BreakFirst     int     `json:"breakfirst"` // the first k VMs stop answering as soon as their container is Running
 }
 
@@ -265,6 +274,7 @@ type vE2ERun struct {
 	vms       []*test.StubVM
 	release   chan struct{} // closed to let blocked ExecuteContainer calls return (kf scenario)
 	nVM       int
+	reported  map[int]bool // VMs that have answered a probe with "broken"
 	deaf      *test.StubVM // kf scenario: the VM that stopped answering before the restart
 	restarted bool
 }
@@ -307,6 +317,9 @@ func (e *vE2ERun) setupVM(svm *test.StubVM) {
 		return 0
 	}
 	svm.ExtraCrunchRunArgs = "'--foo' '--extra='\\''args'\\'''"
+	if n <= scn.ReportBroken {
+		svm.ReportBroken = time.Now().Add(time.Duration(scn.ReportBrokenMs) * time.Millisecond)
+	}
 	if n <= scn.BreakFirst {
 		// see ExecuteContainer above
 	} else if scn.KF {
@@ -330,6 +343,21 @@ func (e *vE2ERun) setupVM(svm *test.StubVM) {
 	orig := svm.SSHService.Exec
 	me := vE2EInst(svm.VID())
 	svm.SSHService.Exec = func(env map[string]string, command string, stdin io.Reader, stdout, stderr io.Writer) uint32 {
+		if command == "crunch-run --list" {
+			var buf bytes.Buffer
+			rc := orig(env, command, stdin, io.MultiWriter(stdout, &buf), stderr)
+			if rc == 0 && strings.Contains("\n"+buf.String(), "\nbroken\n") {
+				e.vmMu.Lock()
+				first := !e.reported[me]
+				e.reported[me] = true
+				e.vmMu.Unlock()
+				if first {
+					// from this answer on the dispatcher knows: the instance says it is broken
+					e.rec.log(map[string]interface{}{"ev": "broken", "w": me})
+				}
+			}
+			return rc
+		}
 		if !strings.HasPrefix(command, "crunch-run --detach ") {
 			return orig(env, command, stdin, stdout, stderr)
 		}
@@ -404,15 +432,14 @@ func (e *vE2ERun) observe() (notFinal []int, insts int, held map[int]bool) {
 			notFinal = append(notFinal, i)
 		}
 	}
-	l, _ := e.sis.Instances(nil)
-	return notFinal, len(l), held
+	return notFinal, e.sis.(*test.StubInstanceSet).VCount(), held
 }
 
 func vE2EOne(t *testing.T, scn *vE2EScenario, tw *vTraceWriter, hostpriv ssh.Signer, dispatchpub ssh.PublicKey, dispatchprivraw []byte, calib time.Duration) time.Duration {
 	logger := logrus.New()
 	logger.Out = io.Discard
 	e := &vE2ERun{scn: scn, rnd: rand.New(rand.NewSource(scn.RSeed)), logger: logger, release: make(chan struct{}),
-		rec: &vRec{known: map[int][2]interface{}{}, ib: map[int]string{}, tw: tw}}
+		rec: &vRec{known: map[int][2]interface{}{}, ib: map[int]string{}, tw: tw}, reported: map[int]bool{}}
 	e.rec.events = vEventSink{e.rec}
 	stale := time.Duration(scn.StaleMs) * time.Millisecond
 	if stale == 0 {
@@ -428,6 +455,12 @@ func vE2EOne(t *testing.T, scn *vE2EScenario, tw *vTraceWriter, hostpriv ssh.Sig
 		AuthorizedKeys:            []ssh.PublicKey{dispatchpub},
 		ErrorRateDestroy:          scn.ErrDestroy,
 		MinTimeBetweenCreateCalls: time.Millisecond,
+	}
+	if scn.CreateLimitMs > 0 {
+		e.sd.MinTimeBetweenCreateCalls = time.Duration(scn.CreateLimitMs) * time.Millisecond
+	}
+	if scn.ListLimitMs > 0 {
+		e.sd.MinTimeBetweenInstancesCalls = time.Duration(scn.ListLimitMs) * time.Millisecond
 	}
 	e.cluster = &arvados.Cluster{
 		ManagementToken: "test-management-token",
@@ -470,7 +503,7 @@ func vE2EOne(t *testing.T, scn *vE2EScenario, tw *vTraceWriter, hostpriv ssh.Sig
 	}
 	init := []string{}
 	ntypes := 3
-	if scn.KF {
+	if scn.KF || scn.OneType {
 		ntypes = 1 // every container fits every instance
 	}
 	for i := 0; i < scn.N; i++ {
